@@ -3,6 +3,7 @@ Tie: Model/Sage.v (primal_blocks) vs PrimalSageCone.conic_form on random (alpha,
 Oracle: solve a small problem around the constraint with ECOS and check the exposed certificate
 (AGE vectors sum to <= c, at most one negative entry each, each AGE signomial and the whole signomial
 nonnegative at sampled points of X)."""
+import itertools
 import math
 import warnings
 
@@ -66,7 +67,54 @@ def oracle_certificate(rng, d):
     return None
 
 
+def oracle_kernel_basis(rng):
+    """kernel_basis=True is outside the row model (floating-point SVD): the certificate it produces is checked directly, on exponent
+    matrices whose columns live on very different scales, at points scaled to each column"""
+    import sageopt.coniclifts as cl
+    fams = [([[0, 0], [2000, 0], [1000, 0.0005]], 2), ([[0, 0], [2, 0], [1, 0.000001]], 2), ([[0, 0], [4, 0], [2, 0.001], [0, 3]], 2),
+            ([[0, 0], [2, 0], [0, 2], [1, 1]], 3), ([[0], [0.000002], [0.000001]], 2)]
+    alpha, neg = rng.choice(fams)
+    alpha = np.array(alpha, dtype=float)
+    m, n = alpha.shape
+    t = cl.Variable(shape=(1,), name='kb_t')
+    cvals = [float(rng.choice([1, 2, 3])) for _ in range(m)]
+    cvals[neg] = -1.0 * t[0]
+    settings = sagecorr.full_settings({'kernel_basis': True, 'sum_age_force_equality': rng.random() < 0.3})
+    with warnings.catch_warnings(), sagecorr.adversarial_globals(settings):
+        warnings.simplefilter('ignore')
+        try:
+            con = cl.PrimalSageCone(cl.Expression(cvals), alpha, None, 'kb', settings=dict(settings))
+            st, val = cl.Problem(cl.MAX, t[0], [con, t <= 50]).solve(verbose=False)
+        except RuntimeError:
+            return None
+    if st != 'solved' or not math.isfinite(val):
+        return None
+    c = np.asarray(con.c.value, dtype=float)
+    scale = np.max(np.abs(alpha), axis=0)
+    ctol = 1e-6 * (1 + float(np.max(np.abs(c))))
+    for u in itertools.product([0.0, 1.0, -1.0, 2.0, -2.0, 4.0, -4.0], repeat=n):
+        x = np.array([ui / sk if sk > 0 else 0.0 for ui, sk in zip(u, scale)])
+        e = alpha @ x
+        if np.max(np.abs(e)) > 50:
+            continue
+        ex = np.exp(e)
+        vecs = [('constrained coefficients', c)] + [('AGE vector %d' % i, np.asarray(av.value, dtype=float)) for i, av in con.age_vectors.items()]
+        for nm, a in vecs:
+            fv = float(a @ ex)
+            if fv < -(ctol * float(np.sum(ex)) + 1e-6 * float(np.abs(a) @ ex)):
+                return ('kernel_basis=True, exponents %s: the signomial with the %s %s is negative (%g) at x=%s'
+                        % (alpha.tolist(), nm, a.tolist(), fv, x.tolist()))
+    return None
+
+
 def run(ctx):
+    for _ in range(ctx.n(12, 80)):
+        why = oracle_kernel_basis(ctx.rng)
+        ctx.evaluations += 1
+        ctx.count('oracle_solves', 'kernel_basis')
+        if why:
+            ctx.problem('oracle', 'certificate check fails on the implementation: ' + why, inputs={'suite': 'kernel_basis'}, failing_input_found=True)
+            break
     cases = []
     for k in range(ctx.n(220, 2500)):
         d = sagecorr.build_primal(ctx.rng)
